@@ -140,7 +140,7 @@ func C03(r *explore.Run) {
 		}
 		c.OutcomeStr(sh.String())
 	})
-	editSpace(r, 1, func(c *explore.Ctx, e *Entry, s string) {
+	edits := func(c *explore.Ctx, e *Entry, s string) {
 		v, res := checkParseTotal(e, s)
 		for sig, d := range v {
 			c.Violation(sig, e.Name+": "+s, d)
@@ -151,7 +151,9 @@ func C03(r *explore.Run) {
 		if res.Panic == nil {
 			c.OutcomeStr(e.Name + shapeOf(res.Roots))
 		}
-	})
+	}
+	editSpace(r, 1, edits)
+	corpusEditSpace(r, edits)
 }
 
 func init() {
